@@ -213,6 +213,44 @@ def rule_P11(ck):
 
 
 # ------------------------------------------------------------------ P5 int(text, base) in number()
+_VALUATION_DONE = {}
+
+
+def _number_valuation(ck):
+    """the `number` parser on texts made of decimal digits of every script (values 1, 8, 9), alone, after an ASCII digit and with a
+    trailing dot: whatever it answers, it must not die in int() (ValueError -> internal compiler error)"""
+    key = id(ck.repo)
+    if key in _VALUATION_DONE:
+        return _VALUATION_DONE[key]
+    import unicodedata
+    from .world import eager_interp
+    from ..props.c05 import run_parser
+    I = eager_interp(ck.repo)
+    chars = [chr(c) for c in range(0x80, 0x1FFFF) if unicodedata.category(chr(c)) == "Nd" and unicodedata.digit(chr(c), None) in (1, 8, 9)]
+    # one digit of each value per script block is enough (the blocks are contiguous runs of ten)
+    texts = []
+    for ch in chars[::1][:240]:
+        texts += [ch, "1" + ch, ch + ".", "0x" + ch, "1" + ch + "$"]
+    bad = None
+    n = 0
+    try:
+        for t in texts:
+            r, pos, errs, raised = run_parser(I, "number", t + " ")
+            n += 1
+            if raised in ("ValueError", "TypeError", "IndexError", "KeyError", "AttributeError", "AssertionError"):
+                bad = (t, raised)
+                break
+    except Unknown:
+        _VALUATION_DONE[key] = False
+        return False
+    ck.instance(("int", "valuation"), {"number() on decimal digits of other scripts": n, "first internal exception": bad}, fn="parser::number")
+    if bad:
+        ck.violation("parser::number", f"the number {bad[0]!r} (a decimal digit of another script) makes number() die with {bad[1]}: the text passes the digit test but int() refuses it - "
+                                       "'unexpected internal compiler error' instead of a diagnostic or 'not a number'", construct="number(): digits of other scripts")
+    _VALUATION_DONE[key] = True
+    return True
+
+
 def rule_P5(ck):
     repo = ck.repo
     fn = repo.func("parser::number")
@@ -258,7 +296,9 @@ def rule_P5(ck):
                             "a digit of another script with value 8 or 9 (e.g. U+0668) raises ValueError (internal compiler error), others are silently read as numbers",
                          construct=f"int({arg}, 8) under isdigit()")
             continue
-        ck.unknown(f"parser::number: int({arg}, {base}) has no recognised guard ({evidence})")
+        # not a guard idiom this rule reads: decide by running the real parser on decimal digits of every script
+        if not _number_valuation(ck):
+            ck.unknown(f"parser::number: int({arg}, {base}) has no recognised guard ({evidence}) and the valuation could not be run")
     if n < 4:
         ck.unknown(f"only {n} int(text, base) conversions found in number() (6 confirmed by hand)")
 
